@@ -34,6 +34,10 @@ def record_from_differential(prog: programs.Program, res: dict[str, Any], tag: s
         rec["reason"] = "export_raises"
         rec["detail"] = res["export_error"]
         return rec
+    if res.get("random"):
+        rec["status"] = "skipped"
+        rec["reason"] = "nondeterministic_by_construction"
+        return rec
     if res.get("env_limit"):
         rec["status"] = "inconclusive"
         rec["reason"] = "ort_env_limit"
